@@ -168,6 +168,32 @@ pub(crate) fn post_pos_flags(ts: &TimeScale, time: f32, r: &TimeScalePosition) -
     }
 }
 
+pub(crate) fn is_reverse(ts: &TimeScale) -> bool {
+    ts.reverse
+}
+
+/// C10: "first forward pass" = no later cycle has begun and the cycle is not on its falling
+/// half; `None` exactly at the peak of a reversing cycle, where both readings give 100%.
+pub(crate) fn spec_first_forward_pass(ts: &TimeScale, time: f32) -> Option<bool> {
+    let since = time - ts.delay;
+    let repeating = match ts.repeat {
+        Repeat::None => false,
+        _ => since / ts.duration > 1.0,
+    };
+    if !ts.reverse {
+        Some(!repeating)
+    } else {
+        let ratio = spec_cycle_time(ts, time) / ts.duration;
+        if ratio > 0.5 {
+            Some(false)
+        } else if ratio < 0.5 {
+            Some(!repeating)
+        } else {
+            None
+        }
+    }
+}
+
 // -- get_duration ------------------------------------------------------------------------------
 
 /// C03: total duration = delay + cycle x (repeats+1), infinite for infinite repeat.
@@ -210,6 +236,7 @@ pub(crate) fn any_timescale() -> TimeScale {
 // The domain is partitioned by (repeat mode x reverse) into six harnesses, each of which proves
 // every clause of the contract of `get_position`; their union is the whole domain.
 
+//@@begin-needs-contract TimeScale::get_position
 macro_rules! get_position_contract_proof {
     ($name:ident, $rep:expr, $rev:expr) => {
         #[kani::proof_for_contract(TimeScale::get_position)]
@@ -234,6 +261,7 @@ get_position_contract_proof!(ts_get_position_times_fwd, Repeat::Times(kani::any(
 get_position_contract_proof!(ts_get_position_times_rev, Repeat::Times(kani::any()), true);
 get_position_contract_proof!(ts_get_position_infinite_fwd, Repeat::Infinite, false);
 get_position_contract_proof!(ts_get_position_infinite_rev, Repeat::Infinite, true);
+//@@end-needs-contract TimeScale::get_position
 
 macro_rules! get_duration_contract_proof {
     ($name:ident, $rep:expr) => {
@@ -468,6 +496,25 @@ pub(crate) mod cex_duration {
     cex_duration!(none, Repeat::None);
     cex_duration!(times, Repeat::Times(kani::any()));
     cex_duration!(infinite, Repeat::Infinite);
+}
+
+/// C10: the loop-state flags of the contract determine "first forward pass" exactly as the
+/// statement reads it (`spec_first_forward_pass`): override enabled <=> !repeating && !reversing.
+#[kani::proof]
+#[kani::solver(cvc5)]
+fn ts_lemma_flags_mean_first_forward_pass() {
+    let ts = any_timescale();
+    let t: f32 = kani::any();
+    kani::assume(pre_get_position(&ts, t));
+    frem_havoc();
+    let rep: bool = kani::any();
+    let rev: bool = kani::any();
+    let p: f32 = kani::any();
+    let pos = TimeScalePosition::Active(p, TimeScaleLoopState { is_repeating: rep, is_reversing: rev });
+    kani::assume(post_pos_flags(&ts, t, &pos));
+    if let Some(expected) = spec_first_forward_pass(&ts, t) {
+        assert!((!rep && !rev) == expected);
+    }
 }
 
 // -- vacuity guards ----------------------------------------------------------------------------
